@@ -76,14 +76,51 @@ class Absent(object):
 ABSENT = Absent()
 
 
+class AlwaysEqual(object):
+    """A value whose == claims equality with anything (like unittest.mock.ANY):
+    a container must not confuse it with its own 'no value' marker."""
+
+    def __eq__(self, other):
+        return True
+
+    def __ne__(self, other):
+        return False
+
+    def __hash__(self):
+        return 1
+
+    def __repr__(self):
+        return "<ALWAYS-EQUAL>"
+
+
+SPECIAL_VALUES = {"any": AlwaysEqual()}
+
+
+class StrSub(str):
+    """A token that is an instance of a str subclass (equal to and hashing like
+    the plain string)."""
+
+
+def dec_token(t):
+    # "\x00sub:text" -> StrSub("text"); every other token is itself
+    if isinstance(t, str) and t.startswith("\x00sub:"):
+        return StrSub(t[5:])
+    return t
+
+
 def dec_value(enc):
-    # {"u": n} -> a fresh unique tuple; {"c": x} -> the JSON constant itself
+    # {"u": n} -> a fresh unique tuple; {"c": x} -> the JSON constant itself;
+    # {"k": name} -> a special singleton
     if "u" in enc:
         return ("v", enc["u"])
+    if "k" in enc:
+        return SPECIAL_VALUES[enc["k"]]
     return enc["c"]
 
 
 def same(got, expected):
+    if isinstance(expected, AlwaysEqual) or isinstance(got, AlwaysEqual):
+        return got is expected
     if expected is None or expected is True or expected is False or expected is ABSENT:
         return got is expected
     return type(got) is type(expected) and got == expected
